@@ -60,20 +60,20 @@ func FailKind(r host.Result) string {
 		return "other:" + info.Class + ":" + info.Root
 	}
 	root := info.Root
-	switch {
-	case strings.HasSuffix(root, "interpreter.OverflowError"), strings.HasSuffix(root, "interpreter.UnderflowError"):
+	switch shortName(root) {
+	case "OverflowError", "UnderflowError":
 		return vir.FailOverflow
-	case strings.HasSuffix(root, "interpreter.DivisionByZeroError"):
+	case "DivisionByZeroError":
 		return vir.FailDivZero
-	case strings.HasSuffix(root, "interpreter.ArrayIndexOutOfBoundsError"):
+	case "ArrayIndexOutOfBoundsError":
 		return vir.FailIndex
-	case strings.HasSuffix(root, "interpreter.ForceNilError"):
+	case "ForceNilError":
 		return vir.FailForceNil
-	case strings.HasSuffix(root, "interpreter.ForceCastTypeMismatchError"):
+	case "ForceCastTypeMismatchError":
 		return vir.FailForceCast
-	case strings.HasSuffix(root, "stdlib.PanicError"):
+	case "PanicError":
 		return vir.FailPanic
-	case strings.HasSuffix(root, "interpreter.OverwriteError"):
+	case "OverwriteError":
 		return vir.FailOverwrite
 	}
 	return "other:" + root
